@@ -95,6 +95,8 @@ def replay_case(arg):
         feats.append('ids_not_sorted')
     if any(len(m[0]) == 0 and len(m[1]) > 0 for m in post['meas']):
         feats.append('first_output_unobserved_for_an_individual')
+    if any(len(m[0]) == 0 and len(m[1]) == 0 for m in post['meas']):
+        feats.append('individual_without_measurements')
     for f in feats:
         cnt['feat_' + f] = 1
 
@@ -211,6 +213,7 @@ def replay_case(arg):
                 hll = chi.HierarchicalLogLikelihood(lls, pop, covs)
                 exp = chi.HierarchicalLogPosterior(hll, pints.ComposedLogPrior(*pri))
                 checks.append(('all', ctrl.get_log_posterior(), exp))
+            x = None
             for label, got, exp in checks:
                 nn = exp.n_parameters()
                 if got.n_parameters() != nn:
@@ -227,6 +230,13 @@ def replay_case(arg):
                     names = got.get_parameter_names()
                     if list(names) != list(exp.get_parameter_names()):
                         fail('Posterior', 'names', dict(got=names, expected=exp.get_parameter_names()))
+                # an individual WITHOUT any usable measurement is part of the dataset and of the population (its block of
+                # parameters, its ID); chi cannot solve a model for an empty set of times (the score is -inf, with a warning,
+                # on both sides of the comparison), so for such datasets the comparison stops at the structure
+                who_ = [ids.index(label)] if mode == 'indiv' else list(range(len(ids)))
+                if any(len(post['meas'][k_][0]) == 0 and len(post['meas'][k_][1]) == 0 for k_ in who_):
+                    cnt['unmeasured_individual_structure_only'] = cnt.get('unmeasured_individual_structure_only', 0) + 1
+                    continue
                 x = np.round(rng.uniform(0.6, 1.4, size=nn), 3)
                 for q, nm in enumerate(names):
                     if 'Log std' in nm or nm.startswith('Std') or 'Sigma' in nm:
@@ -276,6 +286,8 @@ def replay_case(arg):
                     if not interp.close(gv, tot, rtol=1e-6):
                         fail('Posterior', 'value_vs_documented_sum', dict(label=label, got=float(gv), expected=tot,
                                                                           n_obs=[len(obs_k[0]), len(obs_k[1])]))
+            if x is None or 'individual_without_measurements' in feats:
+                return fails, cnt            # (structure only, see above: the later stages evaluate posteriors)
             # ---- the data is set a SECOND time, without a dose table: nothing of the first dataset's regimens survives --
             if mode == 'indiv' and not fails and any(post['regimen'][k] for k in range(len(ids))):
                 ctrl.set_data(frame.drop(columns=['Dose', 'Duration']), dose_key=None, dose_duration_key=None,
